@@ -736,6 +736,75 @@ func (e *Enc) siteMatchesInstr(st *Site, in ssa.Instruction) bool {
 	case "make":
 		_, ok := in.(*ssa.MakeSlice)
 		return ok
+	case "lookup":
+		x, ok := in.(*ssa.Lookup)
+		if !ok || isStringType(x.X.Type()) {
+			return false
+		}
+		return dynCalleeName(x.X) == lastName(st.Target) || sourceNameOf(in.Parent(), x.X) == lastName(st.Target)
+	case "send":
+		switch x := in.(type) {
+		case *ssa.Send:
+			return chanName(in.Parent(), x.Chan) == lastName(st.Target)
+		case *ssa.Select:
+			for _, sc := range x.States {
+				if sc.Dir == types.SendOnly && chanName(in.Parent(), sc.Chan) == lastName(st.Target) {
+					return true
+				}
+			}
+		}
+		return false
 	}
 	return false
+}
+
+// chanName: the field / variable a channel operand was read from.
+func chanName(fn *ssa.Function, v ssa.Value) string {
+	if n := dynCalleeName(v); n != "" {
+		return n
+	}
+	return sourceNameOf(fn, v)
+}
+
+// siteSend: `site send CHAN: assert E` holds wherever a value may be sent on a channel read from the
+// field or variable CHAN - a plain send statement, or a send case of a select (asserted at the
+// select itself: whether the case is taken is not modelled, so E must hold whenever it could be).
+// `value` is the value sent.
+func (e *Enc) siteSend(fr *Frame, in ssa.Instruction, ch ssa.Value, val ssa.Value) {
+	if e.fc == nil || !(fr == e.top || e.definedIn(fr.fn, e.fn)) {
+		return
+	}
+	for i := range e.fc.Sites {
+		st := &e.fc.Sites[i]
+		if st.Kind != "send" || chanName(fr.fn, ch) != lastName(st.Target) {
+			continue
+		}
+		ctx := e.sitePointCtx(fr)
+		sv := TV{V: e.val(fr, val), Typ: val.Type()}
+		ctx.storeVal = &sv
+		e.curSiteInstr = in
+		e.assertSite(fr, st, ctx)
+	}
+}
+
+// siteLookup: `site lookup MAP: assert E` holds wherever the map read from the field or variable MAP
+// is indexed (m[k] as a value, including the comma-ok form); arg(key) is the key.
+func (e *Enc) siteLookup(fr *Frame, x *ssa.Lookup) {
+	if e.fc == nil || !(fr == e.top || e.definedIn(fr.fn, e.fn)) {
+		return
+	}
+	for i := range e.fc.Sites {
+		st := &e.fc.Sites[i]
+		if st.Kind != "lookup" {
+			continue
+		}
+		if dynCalleeName(x.X) != lastName(st.Target) && sourceNameOf(fr.fn, x.X) != lastName(st.Target) {
+			continue
+		}
+		ctx := e.sitePointCtx(fr)
+		ctx.callArgNames = []string{"key"}
+		ctx.callArgs = []TV{{V: e.val(fr, x.Index), Typ: x.Index.Type()}}
+		e.curSiteInstr = x
+		e.assertSite(fr, st, ctx)
+	}
 }
